@@ -209,6 +209,19 @@ def judge_detection_against_frames(ctx: Ctx, ms: Any, frames: Sequence[Any], lab
             if g.semantic_label.label in n_gt:
                 n_gt[g.semantic_label.label] += 1
     info = dict(info or {}, n_frames=len(frames), n_gt=sum(n_gt.values()))
+    # the maps of a mode are computed with the thresholds configured for THAT mode (every configured list, in order)
+    dc = getattr(ms, "detection_config", None)
+    if dc is not None:
+        configured = {MatchingMode.CENTERDISTANCE: dc.center_distance_thresholds, MatchingMode.IOU2D: dc.iou_2d_thresholds, MatchingMode.IOU3D: getattr(dc, "iou_3d_thresholds", None), MatchingMode.PLANEDISTANCE: getattr(dc, "plane_distance_thresholds", None)}
+        used: Dict[Any, List[Any]] = {}
+        for m in ms.maps:
+            used.setdefault(m.matching_mode, []).append([float(t) for t in m.matching_threshold_list])
+        for mode_, lists in used.items():
+            want = configured.get(mode_)
+            if want is None:
+                continue
+            ctx.count(f"{tap}.configured_thresholds_checked")
+            ctx.check(lists == [[float(t) for t in row] for row in want], "C04/maps_of_a_mode_not_computed_with_that_modes_configured_thresholds", dict(info, mode=str(mode_), used=lists, configured=[[float(t) for t in row] for row in want]), tap)
     for m in ms.maps:
         for i, lab in enumerate(m.target_labels):
             if lab not in pooled:
